@@ -133,8 +133,8 @@ EXCEPTIONS = [
     dict(fn="ram_bundle::IndexedRamBundle::<'a>::get_module", what="Overflow:Add:usize", desc="arg1.startup_code_offset,cast<usize>(*.offset)", count=1,
          reason="startup_code_offset = 12 + 8 * module_count <= 2^35 + 12 (parse, C20.R3) plus a widened u32: far below 2^64", requires=["C20.R3"]),
     # ---- C19 only --------------------------------------------------------------------------------------------------------
-    dict(fn="utils::make_relative_path", what="Overflow:Sub:usize", desc="Vec::len(var:Vec<&str>),Option::map_or(utils::find_common_prefix_of_sorted_vec(*),0,\u03bb(slice::len(p1)))", count=1,
+    dict(fn="utils::make_relative_path", what="Overflow:Sub:usize", desc="Vec::len(var:Vec<&str>),Option::map_or(utils::find_common_prefix_of_sorted_vec(*),0,fn:slice::len)", count=1,
          reason="prefix is the length of a common prefix of the two component lists, hence <= base_path.len() (helper returns a prefix of the shortest list)", requires=["C19.R2"]),
-    dict(fn="utils::make_relative_path", what="index", desc="Iterator::collect(*)[RangeFrom{start:Option::map_or(utils::find_common_prefix_of_sorted_vec(*),0,\u03bb(slice::len(p1)))}]", count=1,
+    dict(fn="utils::make_relative_path", what="index", desc="Iterator::collect(*)[RangeFrom{start:Option::map_or(utils::find_common_prefix_of_sorted_vec(*),0,fn:slice::len)}]", count=1,
          reason="prefix <= target_path.len() for the same reason", requires=["C19.R2"]),
 ]
